@@ -44,7 +44,19 @@ Value& TABExpression::value(Context & ctx) const
   Type item_type;
   do
   {
-    Value& a1 = _args[1]->value(ctx); /* execute expression */
+    Value * a1p;
+    try
+    {
+      a1p = &(_args[1]->value(ctx)); /* execute expression */
+    }
+    catch (...)
+    {
+      /* release the collection being built (and the items it holds) */
+      if (tab)
+        delete tab;
+      throw;
+    }
+    Value& a1 = *a1p;
     if (tab == nullptr)
     {
       /* cannot be opaque */
